@@ -479,6 +479,97 @@ def comment_regexes(ctx):
     return out
 
 
+def comment_callback(ctx, r):
+    """The other way to lex a block comment: the token is the opener `(*` and a callback that moves the lexer on.  The token then is exactly
+    `(*` .. first `*)` if the callback (1) searches the *remainder* (the text after the opener) forward for the constant `*)`, (2) where it
+    is found at position p bumps the lexer by p + 2 - the length of `*)` - and accepts, (3) where it is not found rejects.  Returns True if
+    the Comment token is of this form (and reports on it), False if there is no such attribute."""
+    from vlib.mir import switch_info, norm, op_place
+    a = ctx.facts.astattrs.get("ironplc_parser::token::TokenType")
+    name = None
+    for at in (a or {}).get("variants", {}).get("Comment", {}).get("attrs", []):
+        m = re.search(r'#\[token\(\s*"\(\*"\s*,\s*([A-Za-z_][A-Za-z0-9_:]*)', at)
+        if m:
+            name = m.group(1).split("::")[-1]
+    if name is None:
+        return False
+    where = "parser/src/token.rs"
+    bs = [b for b in ctx.prog.bodies.values() if b.f["crate"] == "ironplc_parser" and b.f["name"] == name and b.f["dk"] == "Fn"]
+    inst = "TokenType::Comment|(* + callback %s" % name
+    if not bs:
+        r.finding(inst + "|callback-not-found", where, "the callback of the block comment token is not a function of the parser crate")
+        return True
+    b = bs[0]
+    finds = [c for c in b.calls() if (c.callee or "").endswith("str::find") or (c.callee or "") == "core::str::find"]
+    others = [c for c in b.calls() if (c.callee or "").split("::")[-1] in ("rfind", "rmatch_indices", "match_indices", "split", "rsplit", "contains")]
+    if len(finds) != 1 or others:
+        r.finding(inst + "|not-one-forward-search", where, "expected exactly one forward search (str::find) in the callback, found %d (and %d other searches)" % (len(finds), len(others)))
+        return True
+    f = finds[0]
+    needle = b.const_str(f.args[1]) if len(f.args) > 1 else None
+    rp = op_place(f.args[0])
+    rd = b.single_def(b.root(rp)[0]) if rp is not None else None
+    on_remainder = bool(rd and rd[0] == "call" and (rd[2].callee or "").endswith("Lexer::remainder"))
+    if needle != "*)" or not on_remainder:
+        r.finding(inst + "|wrong-search", where, "the callback searches %s for %r: a block comment ends at the first `*)` of the text after the opener" % ("the remainder" if on_remainder else "something other than lexer.remainder()", needle))
+        return True
+    # the match on the result
+    si = switch_info(b, f.target) if f.target is not None else None
+    cur, k = f.target, 0
+    while si is None and cur is not None and k < 4:
+        sc = b.succ(cur)
+        if len(sc) != 1:
+            break
+        cur = sc[0]
+        si = switch_info(b, cur)
+        k += 1
+    if not si or si["kind"] != "disc" or si.get("adt") != "core::option::Option":
+        r.finding(inst + "|result-not-matched", where, "the result of the search is not matched on")
+        return True
+    some = [x for x, labs in si["edges"].items() if labs == ["Some"]]
+    none = [x for x, labs in si["edges"].items() if labs == ["None"]]
+    if len(some) != 1 or len(none) != 1:
+        r.finding(inst + "|result-not-matched", where, "the match on the search result has no separate Some and None arms")
+        return True
+
+    def returns(start, avoid):
+        vals = set()
+        for x in b.reachable(start, avoid=avoid):
+            for st in b.stmts(x):
+                if st[0] == "=" and st[1] == [0, []] and st[2][0] == "use" and st[2][1][0] == "c":
+                    vals.add(st[2][1][2])
+        return vals
+    some_region = b.reachable(some[0], avoid=(none[0],))
+    bumps = [c for c in b.calls() if c.bb in some_region and (c.callee or "").endswith("Lexer::bump")]
+    ok_bump = False
+    for c in bumps:
+        p = op_place(c.args[1]) if len(c.args) > 1 else None
+        d = b.single_def(p[0]) if p is not None else None
+        # `position + 2` (checked add: the sum is field 0 of the pair)
+        src = None
+        if d and d[0] == "stmt" and d[3][0] == "use":
+            pp = op_place(d[3][1])
+            dd = b.single_def(pp[0]) if pp is not None else None
+            src = dd[3] if dd and dd[0] == "stmt" else None
+        elif d and d[0] == "stmt":
+            src = d[3]
+        if src and src[0] == "bin" and src[1].startswith("Add"):
+            consts = []
+            for o in (src[2], src[3]):
+                if o[0] == "c" and len(o) > 3 and isinstance(o[3], dict) and "int" in o[3]:
+                    consts.append(int(o[3]["int"]))
+            if consts == [len("*)")]:
+                ok_bump = True
+    rs, rn = returns(some[0], (none[0],)), returns(none[0], (some[0],))
+    if not ok_bump:
+        r.finding(inst + "|end-not-position-plus-2", where, "where `*)` is found at position p the lexer is not moved by p + 2: the token does not end with the first `*)`")
+    elif rs != {"true"} or rn != {"false"}:
+        r.finding(inst + "|wrong-verdict", where, "the callback must accept exactly when `*)` was found (Some arm returns %s, None arm returns %s)" % (sorted(rs), sorted(rn)))
+    else:
+        r.ok(inst, where, "`(*`, then the remainder up to and including its first `*)` (forward search for the constant, bump by position + 2); rejected when there is none")
+    return True
+
+
 def run_comment(ctx, rep, rid="R-C08-comment"):
     """A comment is trivia only if it ends where the reader expects it to end.  The block-comment pattern of the lexer (a constant,
     read from the token attributes) is compared, as a regular language, with the definition `(*` ... first `*)`: strings over
@@ -489,6 +580,8 @@ def run_comment(ctx, rep, rid="R-C08-comment"):
                  floor=1, floor_what="block comment patterns")
     pats = [p for p in comment_regexes(ctx) if p.startswith(r"\(\*")]
     if not pats:
+        if comment_callback(ctx, r):
+            return
         r.finding("TokenType::Comment|no-block-pattern", "parser/src/token.rs", "no `(* .. *)` pattern found on the Comment token")
         return
 
